@@ -74,7 +74,7 @@ func init() {
 		NotDecided: "the cell-wise resolution rules, conflict marking, commutativity, keyless tables and renamed columns (value-dependent).",
 	}
 	props["C08"] = &propSpec{
-		Rules:      []string{"C08-a", "C08-b", "C08-c"},
+		Rules:      []string{"C08-a", "C08-b", "C08-c", "C08-d"},
 		Decides:    "Decides one clause of the property only: a caller-supplied hash is stored into the Wants map only after the reachability check (the function that builds *UnrecognizedWantsError) succeeded, and that check walks from an unfiltered listing of all refs. Closedness, parent-first order, minimality, depth selection and polynomial termination are statements about DAG values and are not decided. Level 'other', explicitly thin.",
 		NotDecided: "closedness, parent-first order, minimality, depth selection, polynomial termination — all statements about DAG values.",
 	}
